@@ -601,7 +601,7 @@ class Server(BaseComponent):
             socks = [sock]
 
         for sock in socks:
-            if not self._buffers[sock]:
+            if not self._buffers.get(sock):
                 self._close(sock)
             elif sock not in self._closeq:
                 self._closeq.append(sock)
@@ -642,6 +642,8 @@ class Server(BaseComponent):
 
     @handler('write')
     def write(self, sock, data):
+        if sock not in self._clients:
+            return  # already disconnected: keep nothing for it
         if not self._poller.isWriting(sock):
             self._poller.addWriter(self, sock)
         self._buffers[sock].append(data)
